@@ -2,6 +2,11 @@ package sim
 
 import (
 	"fmt"
+	"sort"
+	"time"
+
+	"cosmossdk.io/collections"
+	sdk "github.com/cosmos/cosmos-sdk/types"
 
 	reportertypes "github.com/tellor-io/layer/x/reporter/types"
 
@@ -142,6 +147,124 @@ func (o *OracleC05) AfterBlock(c *Chain, b *BlockCtx) []*Violation {
 		out = append(out, o.v(b.H, "not-bonded-pool", cls, "not-bonded pool holds %s, unbonding/unbonded validators + unbonding entries record %s (difference %s, allowance %s)", nbp, want, d, dust))
 	}
 	o.count("pool_checks")
+
+	// ---- escrow probe on counterfactual branches. For each of the latest report snapshots, on a branch of its own: the first
+	// backer behind the snapshot undelegates 1 % and, a block later, 98 % of that delegation through the real staking message server
+	// (two unbonding entries, anybody may do that), the SDK's own SlashUnbondingDelegation halves those entries (what a downtime or
+	// double-sign slash does to entries begun after the infraction), and the real EscrowReporterStake then takes 5 % of the
+	// snapshot's stake (a minor dispute): from the rest of the delegation, all of the first entry and part of the second.
+	// Whatever it takes and from where, the pools must stay backed exactly as they were before the call.
+	if len(out) == 0 {
+		backing := func(x sdk.Context) (math.Int, math.Int) {
+			bt, nbt := math.ZeroInt(), math.ZeroInt()
+			vals, _ := app.StakingKeeper.GetAllValidators(x)
+			for _, val := range vals {
+				if val.IsBonded() {
+					bt = bt.Add(val.Tokens)
+				} else {
+					nbt = nbt.Add(val.Tokens)
+				}
+			}
+			_ = app.StakingKeeper.IterateUnbondingDelegations(x, func(_ int64, ubd stakingtypes.UnbondingDelegation) bool {
+				for _, e := range ubd.Entries {
+					nbt = nbt.Add(e.Balance)
+				}
+				return false
+			})
+			b1 := app.BankKeeper.GetBalance(x, app.AccountKeeper.GetModuleAddress(stakingtypes.BondedPoolName), Denom).Amount
+			b2 := app.BankKeeper.GetBalance(x, app.AccountKeeper.GetModuleAddress(stakingtypes.NotBondedPoolName), Denom).Amount
+			return b1.Sub(bt), b2.Sub(nbt)
+		}
+		type snap struct {
+			q   []byte
+			rep []byte
+			h   uint64
+			d   reportertypes.DelegationsAmounts
+		}
+		var snaps []snap
+		_ = app.ReporterKeeper.Report.Walk(v.ctx, nil, func(k collections.Pair[[]byte, collections.Pair[[]byte, uint64]], d reportertypes.DelegationsAmounts) (bool, error) {
+			snaps = append(snaps, snap{append([]byte{}, k.K1()...), append([]byte{}, k.K2().K1()...), k.K2().K2(), d})
+			return false, nil
+		})
+		sort.SliceStable(snaps, func(i, j int) bool { return snaps[i].h > snaps[j].h })
+		if len(snaps) > 4 {
+			snaps = snaps[:4]
+		}
+		sms := stakingkeeper.NewMsgServerImpl(app.StakingKeeper)
+		for _, sp := range snaps {
+			power := sp.d.Total.Quo(math.NewInt(1_000_000))
+			if !power.IsPositive() || !sp.d.Total.Equal(power.MulRaw(1_000_000)) || len(sp.d.TokenOrigins) == 0 {
+				continue
+			}
+			or := sp.d.TokenOrigins[0]
+			delAddr, valAddr := sdk.AccAddress(or.DelegatorAddress), sdk.ValAddress(or.ValidatorAddress)
+			branch, _ := v.ctx.CacheContext()
+			del, err := app.StakingKeeper.GetDelegation(branch, delAddr, valAddr)
+			if err != nil {
+				continue
+			}
+			val, err := app.StakingKeeper.GetValidator(branch, valAddr)
+			if err != nil {
+				continue
+			}
+			held := val.TokensFromShares(del.Shares).TruncateInt()
+			if held.LT(math.NewInt(10_000)) {
+				continue
+			}
+			prepared := true
+			for pi, part := range []math.Int{held.QuoRaw(100), held.MulRaw(98).QuoRaw(100)} {
+				// the second undelegation happens one block later: entries of one block would be merged into one
+				branch = branch.WithBlockHeight(branch.BlockHeight() + int64(pi)).WithBlockTime(branch.BlockTime().Add(time.Duration(pi) * time.Second))
+				if e := probeCall(func() error {
+					_, e := sms.Undelegate(branch, &stakingtypes.MsgUndelegate{DelegatorAddress: delAddr.String(), ValidatorAddress: valAddr.String(), Amount: sdk.NewCoin(Denom, part)})
+					return e
+				}); e != nil {
+					prepared = false
+					break
+				}
+			}
+			if !prepared {
+				o.count("escrow_probe_undelegation_refused")
+				continue
+			}
+			ubd, err := app.StakingKeeper.GetUnbondingDelegation(branch, delAddr, valAddr)
+			if err != nil {
+				continue
+			}
+			if e := probeCall(func() error {
+				_, e := app.StakingKeeper.SlashUnbondingDelegation(branch, ubd, 0, math.LegacyNewDecWithPrec(5, 1))
+				return e
+			}); e != nil {
+				continue
+			}
+			b0, n0 := backing(branch)
+			amt := sp.d.Total.MulRaw(5).QuoRaw(100)
+			err = probeCall(func() error {
+				return app.ReporterKeeper.EscrowReporterStake(branch, sdk.AccAddress(sp.rep), power.Uint64(), sp.h, amt, sp.q, []byte("c05-escrow-probe"))
+			})
+			o.count("escrow_probe_calls")
+			if err != nil {
+				o.count("escrow_probe_refused")
+				o.count("escrow_probe_refused: " + truncate(err.Error(), 70))
+				continue
+			}
+			b1, n1 := backing(branch)
+			tol := math.NewInt(int64(len(sp.d.TokenOrigins))*4 + 4)
+			if db, dn := b1.Sub(b0), n1.Sub(n0); db.Abs().GT(tol) || dn.Abs().GT(tol) {
+				cls := "not-bonded-pool-short"
+				if dn.Abs().LTE(tol) {
+					cls = "bonded-pool-short"
+					if db.IsPositive() {
+						cls = "bonded-pool-excess"
+					}
+				} else if dn.IsPositive() {
+					cls = "not-bonded-pool-excess"
+				}
+				out = append(out, o.v(b.H, "escrow-probe", cls+":after-sdk-slash-of-unbonding-entries", "backer %s of the report of %s at height %d undelegates 1 %% and 98 %% from %s, the two entries are slashed by half, then 5 %% of the report's stake (%s of %s) is escrowed: bonded pool minus bonded validators changes by %s, not-bonded pool minus (unbonding validators + entries) by %s (tolerance %s)", delAddr, sdk.AccAddress(sp.rep), sp.h, valAddr, amt, sp.d.Total, db, dn, tol))
+				break
+			}
+		}
+	}
 
 	// ---- SDK staking invariants named by the statement
 	for _, iv := range []struct {
